@@ -88,8 +88,26 @@ func (hf *HostFetcher) Fetch(req *bfe_basic.Request) (interface{}, error) {
 	}
 
 	// ignore optional port in Host
-	host := strings.SplitN(req.HttpRequest.Host, ":", 2)[0]
+	host, _, _ := splitHostPort(req.HttpRequest.Host)
 	return host, nil
+}
+
+// splitHostPort splits "host", "host:port", "[ipv6]" or "[ipv6]:port" into host and port;
+// hasPort tells whether a ":port" part is present. A bracketed IPv6 literal keeps its brackets.
+func splitHostPort(hostport string) (host string, port string, hasPort bool) {
+	if strings.HasPrefix(hostport, "[") {
+		if end := strings.Index(hostport, "]"); end > 0 {
+			rest := hostport[end+1:]
+			if strings.HasPrefix(rest, ":") {
+				return hostport[:end+1], rest[1:], true
+			}
+			return hostport[:end+1], "", false
+		}
+	}
+	if i := strings.Index(hostport, ":"); i >= 0 {
+		return hostport[:i], hostport[i+1:], true
+	}
+	return hostport, "", false
 }
 
 type HostTagFetcher struct{}
@@ -129,9 +147,8 @@ func (pf *PortFetcher) Fetch(req *bfe_basic.Request) (interface{}, error) {
 	}
 
 	port := "80"
-	i := strings.Index(req.HttpRequest.Host, ":")
-	if i > 0 {
-		port = req.HttpRequest.Host[i+1:]
+	if host, p, hasPort := splitHostPort(req.HttpRequest.Host); hasPort && host != "" {
+		port = p
 	}
 
 	return port, nil
